@@ -77,8 +77,7 @@ def parse_date(v):
             pass
     if not ok:
         return None
-    if len(set(ok)) > 1:
-        return 'ambiguous'
+    # candidates are in the documented order of precedence (standard formats first)
     return ok[0]
 
 
